@@ -1014,3 +1014,8 @@ Theorem mount_mount_no_stack_serial : forall s k ca cb,
 Proof.
   intros s k ca cb Ha Hb. apply mount_mount_no_stack_serial_gen; auto using pm_code_mshape.
 Qed.
+
+(* [run_sched] runs both processes to completion *)
+Theorem run_completes : forall s k ca cb,
+  finished (snd (fst (fst (run_sched s k ca cb)))) && finished (snd (fst (run_sched s k ca cb))) = true.
+Proof. intros s k ca cb. rewrite run_sched_rs. cbn [fst snd]. apply rs_finished. Qed.
